@@ -471,3 +471,112 @@ Lemma cx_alias_converge :
   /\ alias_redirect_url cx_map ex_adapter (upper GET) cx_old [(LX, VInt 1)]
      = BOk (HTTP ++ [COLON; SLASH; SLASH] ++ a_server ex_adapter ++ [47; 103]).
 Proof. split; vm_compute; reflexivity. Qed.
+
+(* ================================================================== the scheme of a redirect *)
+(* every URL make_redirect_url produces (slash / merged-slash redirects, and the defaults redirect with the built
+   host part) carries the scheme the adapter is bound with; for an adapter bound to a websocket request that is
+   ws:// or wss:// - the redirect of a websocket handshake stays a websocket URL of the same security *)
+Theorem redirect_scheme m a path dp :
+  has (eff_scheme a) uses_netloc = true ->
+  exists rest, make_redirect_url m a path dp = eff_scheme a ++ [COLON; SLASH; SLASH] ++ rest.
+Proof.
+  intro H. rewrite (make_redirect_url_shape m a path dp H). unfold url_root.
+  eexists. repeat first [rewrite <- app_assoc | progress cbn [app]]. reflexivity.
+Qed.
+
+Theorem websocket_redirect_scheme m a path dp :
+  a_websocket a = true ->
+  (a_scheme a = WS \/ a_scheme a = WSS)
+  /\ exists rest, make_redirect_url m a path dp = a_scheme a ++ [COLON; SLASH; SLASH] ++ rest.
+Proof.
+  intro Hw. unfold a_websocket in Hw. apply orb_prop in Hw.
+  assert (Hs : a_scheme a = WS \/ a_scheme a = WSS) by (destruct Hw as [E|E]; apply list_eqb_eq in E; auto).
+  split; [exact Hs|].
+  assert (He : eff_scheme a = a_scheme a) by (unfold eff_scheme; destruct Hs as [->| ->]; reflexivity).
+  rewrite <- He. apply redirect_scheme. rewrite He. destruct Hs as [->| ->]; vm_compute; reflexivity.
+Qed.
+
+(* ws://example.com/3 under Rule('/<int(max=5):a>/') is redirected to ws://example.com/3/ *)
+Definition ex_adapter_ws : adapter :=
+  {| a_scheme := WS; a_server := a_server ex_adapter; a_script := [SLASH]; a_subdomain := None; a_query := [] |}.
+Lemma ex_ws_redirect :
+  a_websocket ex_adapter_ws = true
+  /\ map_match no_hooks (mk_map [{| r_idx := 0; r_endpoint := 0; r_dom := SLit []; r_segs := [SDyn [] (CInt 0 None (Some 5%Z) false) [97] []];
+                                    r_tail := None; r_branch := true; r_methods := None; r_strict_opt := None; r_merge_opt := None;
+                                    r_websocket := true; r_alias := false; r_defaults := [] |}]) ex_adapter_ws [47; 51] GET
+     = RedirectTo (WS ++ [COLON; SLASH; SLASH] ++ a_server ex_adapter ++ [47; 51; 47]).
+Proof. split; vm_compute; reflexivity. Qed.
+
+(* ================================================================== Rule.redirect_to *)
+Lemma rt_subst_plain cs vals s : mem LT s = false -> rt_subst cs vals None s = BOk s.
+Proof.
+  induction s as [|c s IH]; [reflexivity|]. rewrite mem_cons. intro H. apply orb_false_elim in H. destruct H as [H1 H2].
+  cbn [rt_subst]. rewrite N.eqb_sym, H1, (IH H2). reflexivity.
+Qed.
+
+Lemma rt_subst_name cs vals n acc rest : mem GT n = false ->
+  rt_subst cs vals (Some acc) (n ++ GT :: rest)
+  = if is_nil (acc ++ n) then bbind (rt_subst cs vals None rest) (fun t => BOk (LT :: GT :: t))
+    else match dict_get (acc ++ n) vals, conv_get (acc ++ n) cs with
+         | Some v, Some cv => bbind (to_url cv v) (fun u => bbind (rt_subst cs vals None rest) (fun t => BOk (u ++ t)))
+         | _, _ => BUnsupported
+         end.
+Proof.
+  revert acc. induction n as [|c n IH]; intros acc H.
+  - cbn [app rt_subst]. rewrite N.eqb_refl, app_nil_r. reflexivity.
+  - rewrite mem_cons in H. apply orb_false_elim in H. destruct H as [H1 H2].
+    cbn [app rt_subst]. rewrite N.eqb_sym, H1. etransitivity; [exact (IH (acc ++ [c]) H2)|]. rewrite <- app_assoc. reflexivity.
+Qed.
+
+(* plain text, then <name>, then the rest: the variable is replaced by its converter's to_url of the matched value *)
+Theorem rt_subst_var cs vals pre n rest v cv :
+  mem LT pre = false -> mem GT n = false -> n <> [] ->
+  dict_get n vals = Some v -> conv_get n cs = Some cv ->
+  rt_subst cs vals None (pre ++ LT :: n ++ GT :: rest)
+  = bbind (to_url cv v) (fun u => bbind (rt_subst cs vals None rest) (fun t => BOk (pre ++ u ++ t))).
+Proof.
+  intros Hp Hn Hne Hv Hc. induction pre as [|c pre IH].
+  - cbn [app rt_subst]. rewrite N.eqb_refl. etransitivity; [exact (rt_subst_name cs vals n [] rest Hn)|]. cbn [app].
+    destruct n; [contradiction|]. cbn [is_nil]. rewrite Hv, Hc. reflexivity.
+  - rewrite mem_cons in Hp. apply orb_false_elim in Hp. destruct Hp as [H1 H2].
+    cbn [app rt_subst]. rewrite N.eqb_sym, H1, (IH H2).
+    destruct (to_url cv v) as [u| |]; cbn [bbind]; try reflexivity.
+    destruct (rt_subst cs vals None rest) as [t| |]; reflexivity.
+Qed.
+
+(* where a redirect_to redirect points: scheme://host/script-root/ of the adapter, then the substituted template, which is a
+   relative reference without a leading slash (it cannot replace the authority) *)
+Theorem redirect_to_on_base m a r vals tpl u :
+  redirect_to_url m a r vals tpl = BOk u ->
+  exists t, rt_subst (rule_convs r) vals None tpl = BOk t /\ u = redirect_base m a ++ t
+    /\ starts_with [SLASH] t = false /\ t <> [].
+Proof.
+  unfold redirect_to_url. destruct (rt_subst (rule_convs r) vals None tpl) as [t| |]; cbn [bbind]; try discriminate.
+  destruct (plain_reference t) eqn:Ep; cbn [andb]; [|discriminate]. destruct (no_dot_segments (lstrip_slash (script_name a))); [|discriminate].
+  intro H. injection H as <-. exists t. split; [reflexivity|]. split; [reflexivity|].
+  unfold plain_reference in Ep. apply andb_prop in Ep. destruct Ep as [Ep _]. apply andb_prop in Ep. destruct Ep as [Ep _].
+  apply andb_prop in Ep. destruct Ep as [E1 E2]. split.
+  - destruct (starts_with [SLASH] t); [discriminate|reflexivity].
+  - intros ->. discriminate.
+Qed.
+
+(* a rule with redirect_to answers with RequestRedirect to exactly that URL, after the defaults / alias canonicalisation *)
+Theorem router_match_rt_spec rt m a p me :
+  match router_match m a p me with
+  | Match r vs =>
+      match rt (r_idx r) with
+      | None => router_match_rt rt m a p me = Match r vs
+      | Some tpl => forall u, redirect_to_url m a r vs tpl = BOk u -> router_match_rt rt m a p me = RedirectTo u
+      end
+  | o => router_match_rt rt m a p me = o
+  end.
+Proof.
+  unfold router_match_rt. destruct (router_match m a p me) as [r vs| | | | |]; try reflexivity.
+  destruct (rt (r_idx r)) as [tpl|]; [|reflexivity]. intros u H. rewrite H. reflexivity.
+Qed.
+
+(* Rule('/<int(max=5):a>/', redirect_to='new/<a>/x'): '/3/' -> http://example.com/new/3/x *)
+Lemma ex_redirect_to :
+  router_match_rt (fun i => if i =? 0 then Some [110; 101; 119; 47; 60; 97; 62; 47; 120] else None) ex_map2 ex_adapter [47; 51; 47] GET
+  = RedirectTo (HTTP ++ [COLON; SLASH; SLASH] ++ a_server ex_adapter ++ [47; 110; 101; 119; 47; 51; 47; 120]).
+Proof. vm_compute. reflexivity. Qed.
